@@ -183,12 +183,14 @@ func capPreCount(swampObj swamp.Swamp, predicate func(treasureForCount) bool) (i
 	adapted := func(t treasure.Treasure) bool {
 		return predicate(t)
 	}
-	count := swampObj.CountMatchingTreasures(adapted)
 	// Cap-bearing patch flows serialise on swamp.capMu — but the swamp
 	// interface does not expose it directly. Acquire it via the
 	// public LockCapMu / UnlockCapMu accessors added on the swamp
 	// interface so the gateway can hold it for the whole batch.
+	// The count must be taken under capMu: counted before the lock, two
+	// concurrent batches both see the same budget and together exceed the cap.
 	swampObj.LockCapMu()
+	count := swampObj.CountMatchingTreasures(adapted)
 	return count, swampObj.UnlockCapMu
 }
 
